@@ -727,15 +727,8 @@ func (r *Reconciler) reconcileApply(ctx context.Context, proposal *configapi.Pro
 					failureType = configapi.Failure_INTERNAL
 				}
 
-				// Update the Configuration's applied index to indicate this Proposal was applied even though it failed.
-				log.Infof("Updating applied index for Configuration '%s' to %d in term %d", config.ID, proposal.TransactionIndex, config.Status.Mastership.Term)
-				config.Status.Applied.Index = proposal.TransactionIndex
-				if err := r.configurations.UpdateStatus(ctx, config); err != nil {
-					log.Warnf("Failed reconciling Transaction %d Proposal to target '%s'", proposal.TransactionIndex, proposal.TargetID, err)
-					return controller.Result{}, err
-				}
-
-				// Add the failure to the proposal's apply phase state.
+				// Add the failure to the proposal's apply phase state first: the applied index of the Configuration must not
+				// pass a proposal whose failure is not recorded yet, or the proposal would later be taken for applied.
 				log.Warnf("Failed applying Proposal '%s'", proposal.ID, err)
 				proposal.Status.Phases.Apply.State = configapi.ProposalApplyPhase_FAILED
 				proposal.Status.Phases.Apply.Failure = &configapi.Failure{
@@ -744,10 +737,16 @@ func (r *Reconciler) reconcileApply(ctx context.Context, proposal *configapi.Pro
 				}
 				proposal.Status.Phases.Apply.Term = config.Status.Mastership.Term
 				proposal.Status.Phases.Apply.End = getCurrentTimestamp()
-				if err := r.updateProposalStatus(ctx, proposal); err != nil {
-					return controller.Result{}, err
+				if updateErr := r.proposals.UpdateStatus(ctx, proposal); updateErr != nil {
+					if errors.IsNotFound(updateErr) || errors.IsConflict(updateErr) {
+						// The proposal was changed in the meantime: it is looked at again when that change is seen
+						log.Warnf("Write conflict updating Proposal '%s' status", proposal.ID, updateErr)
+						return controller.Result{}, nil
+					}
+					log.Errorf("Failed updating Proposal '%s' status", proposal.ID, updateErr)
+					return controller.Result{}, updateErr
 				}
-				return controller.Result{}, nil
+				return r.passFailedProposal(ctx, proposal, config)
 			}
 		}
 		log.Debugf("Received SetResponse %+v", setResponse)
@@ -783,9 +782,39 @@ func (r *Reconciler) reconcileApply(ctx context.Context, proposal *configapi.Pro
 			}, nil
 		}
 		return controller.Result{}, nil
+	case configapi.ProposalApplyPhase_FAILED:
+		configID := configuration.NewID(proposal.TargetID, proposal.TargetType, proposal.TargetVersion)
+		config, err := r.configurations.Get(ctx, configID)
+		if err != nil {
+			if !errors.IsNotFound(err) {
+				log.Errorf("Failed reconciling Transaction %d Proposal to target '%s'", proposal.TransactionIndex, proposal.TargetID, err)
+				return controller.Result{}, err
+			}
+			return controller.Result{}, nil
+		}
+		return r.passFailedProposal(ctx, proposal, config)
 	default:
 		return controller.Result{}, nil
 	}
+}
+
+// passFailedProposal moves the applied index of the Configuration past a proposal whose apply failed, so that the
+// proposals behind it can be applied, and hands over to the next proposal
+func (r *Reconciler) passFailedProposal(ctx context.Context, proposal *configapi.Proposal, config *configapi.Configuration) (controller.Result, error) {
+	if config.Status.Applied.Index < proposal.TransactionIndex {
+		log.Infof("Updating applied index for Configuration '%s' to %d in term %d", config.ID, proposal.TransactionIndex, config.Status.Mastership.Term)
+		config.Status.Applied.Index = proposal.TransactionIndex
+		if err := r.configurations.UpdateStatus(ctx, config); err != nil {
+			log.Warnf("Failed reconciling Transaction %d Proposal to target '%s'", proposal.TransactionIndex, proposal.TargetID, err)
+			return controller.Result{}, err
+		}
+	}
+	if proposal.Status.NextIndex != 0 {
+		return controller.Result{
+			Requeue: controller.NewID(proposalstore.NewID(proposal.TargetID, proposal.Status.NextIndex)),
+		}, nil
+	}
+	return controller.Result{}, nil
 }
 
 func (r *Reconciler) updateProposalStatus(ctx context.Context, proposal *configapi.Proposal) error {
